@@ -287,7 +287,8 @@ class CardMonitor(Monitor):
 
 
 def make_monitors():
-    return [driver.Observer(0.1), driver.Interleaver(), CardMonitor()]
+    return [driver.Observer(0.1), driver.Interleaver(),
+            driver.KnownCardsRule(), CardMonitor()]
 
 
 def gen_kwargs(rng):
